@@ -80,6 +80,7 @@ def reuse(s, i):
 
 def run(s):
     K.suite_workload(s)
+    K.fixtures_workload(s)
     for i in range(130 if s.tier == 'quick' else 5000):
         if s.mine(i):
             reuse(s, i)
